@@ -27,6 +27,7 @@ func main() {
 	noControls := flag.Bool("no-controls", false, "do not inject positive controls (debug)")
 	verbose := flag.Bool("v", false, "print every non-ok obligation")
 	all := flag.Bool("all", false, "print every obligation")
+	exploreKind := flag.String("explore-kind", "swap", "swap|delete")
 	explore := flag.String("explore", "", "development aid: statement-swap mutants of functions whose name contains this string ('all'); prints the ones no rule reports")
 	flag.Parse()
 
@@ -61,7 +62,7 @@ func main() {
 		if f == "all" {
 			f = ""
 		}
-		rules.Explore(m, *repo, f)
+		rules.Explore(m, *repo, f, *exploreKind)
 		return
 	}
 	if *dump != "" {
